@@ -49,7 +49,7 @@ def run_tlc(workdir, module_dir, module, cfg_text, env=None, workers=1, timeout=
     with open(cfg, "w") as f:
         f.write(cfg_text)
     out = os.path.join(workdir, module + ".out")
-    e = {"JAVA_TOOL_OPTIONS": java_opts}
+    e = {"JAVA_TOOL_OPTIONS": java_opts + " -DTLA-Library=" + os.path.join(SPEC, "mon") + ":" + SPEC}
     if env:
         e.update(env)
     cmd = ["timeout", str(timeout), "tlc", "-workers", str(workers), "-noGenerateSpecTE", "-metadir", os.path.join(workdir, "meta"), "-cleanup",
@@ -191,47 +191,322 @@ def report(pid, breaches, trace, scripts_path, known, workdir):
     return violations, seen
 
 
+
+# ------------------------------------------------------------------------------------------------
+# model checking of the implementation-shaped specification (EngineMC) and script export
+
+import mcconf
+
+TPS = 2
+
+def hist_to_script(hist, src):
+    """A decision history exported by TLC (EngineMC.hist) -> a harness script."""
+    c = hist[0]["cfg"]
+    resolver = "lru:%d" % c["lruMax"] if c["resolver"] == "lru" else c["resolver"]
+    cfg = {"src": src, "policy": c["policy"], "drain": c["drain"], "retries": c["retries"], "ver": c["ver"],
+           "ping_tmo": c["pingTmo"] * 1000 // TPS, "ka": c["ka"], "rejoin": c["rejoin"], "resolver": resolver, "cid": c["cid"],
+           "tam_in": c["tamIn"] if c["tamIn"] > 0 else -1, "sei": c["sei"] if c["sei"] > 0 else -1}
+    steps = []
+    for d in hist[1:]:
+        d = dict(d)
+        if d["a"] == "WriteDone":
+            d = {"a": "Flush"}
+        steps.append(d)
+    steps += [{"a": "Settle"}, {"a": "Reset"}]
+    return {"cfg": cfg, "steps": steps}
+
+
+def tla_json_lines(text, tag):
+    """PrintT(<<"TAG", ..., ToJson(x)>>) lines of a TLC run -> list of (fields..., parsed json)"""
+    out = []
+    for m in re.finditer(r'<<"%s", (?:"([^"]*)", )?"(.*)">>' % tag, text):
+        try:
+            out.append((m.group(1), json.loads(m.group(2).encode().decode("unicode_escape"))))
+        except Exception:
+            pass
+    return out
+
+
+def run_mc(pid, tier, workdir, export_depth=None):
+    """Runs the bounded EngineMC instance(s) of a property.  Returns a summary with the scripts exported (S1) and,
+    if an invariant failed, the decision histories that lead to the failure."""
+    summary = {"instances": [], "distinct": 0, "generated": 0, "witnesses": set(), "scripts": [], "cex": [], "wall_s": 0.0, "complete": True}
+    for i, consts in enumerate(mcconf.INSTANCES[pid][tier]):
+        consts = dict(consts)
+        if export_depth is not None:
+            consts["ExportDepth"] = export_depth
+        cfg = mcconf.cfg_text(consts)
+        limit = 600 if tier == "quick" else 3000
+        try:
+            res = run_tlc(os.path.join(workdir, "mc%d" % i), SPEC, "EngineConf", cfg, workers=TLC_WORKERS, timeout=limit, java_opts="-Xss1g -Xmx16g")
+            timed_out = False
+        except ToolError:
+            raise
+        text = res["text"]
+        for name, h in tla_json_lines(text, "CEX"):
+            summary["cex"].append({"invariant": name, "script": hist_to_script(h, "MC-CEX:%s:%s" % (pid, name))})
+        for _, h in tla_json_lines(text, "SCRIPT"):
+            summary["scripts"].append(hist_to_script(h, "S1:%s:%d" % (pid, len(summary["scripts"]))))
+        for m in re.finditer(r'<<"WITNESS", <<(.*)>>>>', text):
+            summary["witnesses"].add(m.group(1).replace('"', ""))
+        ok = res["ok"]
+        if not ok and not summary["cex"]:
+            sys.stdout.write(text[-3000:])
+            raise ToolError("TLC failed on the EngineMC instance of " + pid)
+        summary["instances"].append({"constants": {k: str(v) for k, v in consts.items()}, "distinct": res.get("distinct", 0), "generated": res.get("generated", 0),
+                                     "depth": res.get("depth", 0), "wall_s": res["wall_s"], "ok": ok})
+        summary["distinct"] += res.get("distinct", 0)
+        summary["generated"] += res.get("generated", 0)
+        summary["wall_s"] += res["wall_s"]
+    summary["witnesses"] = sorted(summary["witnesses"])
+    return summary
+
+
+def engine_trace(trace, workdir):
+    """Conformance of the recorded executions with Engine.tla + the state invariants on every observed state."""
+    cfg = "SPECIFICATION Spec\nCONSTANTS\n  PidMax = 65535\n  TPS = 1000\n  UnitsOn = FALSE\nINVARIANT Verdict\nPOSTCONDITION Consumed\nCHECK_DEADLOCK FALSE\n"
+    res = run_tlc(os.path.join(workdir, "et"), SPEC, "EngineTrace", cfg, env={"TRACE": trace}, workers=1, timeout=3000, java_opts="-Xss1g -Xmx8g")
+    v = tla_json_lines(res["text"], "VERDICT")
+    if not v or not res["ok"]:
+        sys.stdout.write(res["text"][-4000:])
+        raise ToolError("conformance checking (EngineTrace) did not complete")
+    return v[0][1], res
+
+
+# state invariant of Engine.tla -> the property whose statement it expresses
+INV_PROPERTY = {"UserOpsTracked": "C01", "NoLiveIdTwice": "C04", "AllocConsistent": "C06", "PendingBound": "C06",
+                "ReceiveMaximum": "C09", "NoStrandedWork": "C08"}
+
+
+# ------------------------------------------------------------------------------------------------
+# client lifecycle (C12): ClientLifecycle.tla + the real tokio client over a scripted transport
+
+LIFECYCLE_REGRESSIONS = [
+ {"cfg": {"src": "S3:lc-happy", "auto_broker": True}, "steps": [{"a": "Start"}, {"a": "Run", "ms": 100}, {"a": "Publish", "qos": 1}, {"a": "Run", "ms": 100}, {"a": "Stop", "disc": True}, {"a": "Settle", "ms": 2000}]},
+ {"cfg": {"src": "S3:f02-stop-disc-then-connection-lost", "auto_broker": True}, "steps": [{"a": "Start"}, {"a": "Run", "ms": 100}, {"a": "WriteStall", "on": True}, {"a": "Stop", "disc": True}, {"a": "Yield", "n": 5}, {"a": "PeerClose"}, {"a": "Settle", "ms": 5000}, {"a": "Start"}, {"a": "Settle", "ms": 3000}]},
+ {"cfg": {"src": "S3:f03-stop-disc-during-handshake", "auto_broker": False}, "steps": [{"a": "Start"}, {"a": "WaitWritten", "what": "CONNECT"}, {"a": "Stop", "disc": True}, {"a": "Yield", "n": 5}, {"a": "Send", "what": "connack_ok"}, {"a": "Settle", "ms": 60000}]},
+ {"cfg": {"src": "S3:f18-close-after-stop-disc", "auto_broker": True}, "steps": [{"a": "Start"}, {"a": "Run", "ms": 100}, {"a": "WriteStall", "on": True}, {"a": "Stop", "disc": True}, {"a": "Close"}, {"a": "Yield", "n": 8}, {"a": "WriteStall", "on": False}, {"a": "Settle", "ms": 60000}]},
+ {"cfg": {"src": "S3:lc-refused-then-stop"}, "steps": [{"a": "ConnectPlan", "mode": "refuse"}, {"a": "Start"}, {"a": "Run", "ms": 5000}, {"a": "Stop"}, {"a": "Settle", "ms": 5000}, {"a": "ConnectPlan", "mode": "ok"}, {"a": "Start"}, {"a": "Settle", "ms": 3000}, {"a": "Close"}, {"a": "Settle", "ms": 3000}]},
+]
+
+
+def lifecycle_hist_to_script(hist, src):
+    """Decision history of ClientLifecycle.tla -> script for client_run (tokio client, scripted transport)."""
+    outcomes = [d["a"] for d in hist if d["a"] in ("ConnectOk", "ConnectRefused")]
+    plan = lambda o: {"a": "ConnectPlan", "mode": "ok_stalled" if o == "ConnectOk" else "refuse"}
+    steps = [plan(outcomes[0])] if outcomes else []
+    k = 0
+    for d in hist:
+        a = d["a"]
+        if a == "Start": steps.append({"a": "Start"})
+        elif a == "Stop": steps.append({"a": "Stop", "disc": False})
+        elif a == "StopDisc": steps.append({"a": "Stop", "disc": True})
+        elif a == "Close": steps.append({"a": "Close"})
+        elif a == "Loop": steps.append({"a": "Yield", "n": 3})
+        elif a in ("ConnectOk", "ConnectRefused"):
+            steps.append({"a": "Yield", "n": 3})
+            k += 1
+            if k < len(outcomes): steps.append(plan(outcomes[k]))
+            else: steps.append({"a": "ConnectPlan", "mode": "ok"})
+        elif a == "Timer": steps.append({"a": "Run", "ms": 400})
+        elif a == "Timeout": steps.append({"a": "Run", "ms": 6000})
+        elif a == "WriteAll": steps += [{"a": "WriteStall", "on": False}, {"a": "Yield", "n": 3}, {"a": "WriteStall", "on": True}]
+        elif a == "WriteError": steps += [{"a": "WriteError"}, {"a": "Yield", "n": 2}]
+        elif a == "Send": steps += [{"a": "Send", "what": d["what"]}, {"a": "Yield", "n": 2}]
+        elif a == "PeerClose": steps += [{"a": "PeerClose"}, {"a": "Yield", "n": 2}]
+        elif a == "ReadError": steps += [{"a": "ReadError"}, {"a": "Yield", "n": 2}]
+    steps += [{"a": "WriteStall", "on": False}, {"a": "AutoBroker", "on": True}, {"a": "Settle", "ms": 30000}]
+    return {"cfg": {"src": src, "auto_broker": False, "base_ms": 100, "max_ms": 1000, "jitter": "none", "connect_timeout_ms": 5000, "ka": 0}, "steps": steps}
+
+
+def run_lifecycle_mc(workdir, tier):
+    """ClientLifecycle.tla: the repaired behaviour must satisfy everything; each recorded defect, switched back on, must be found."""
+    out = {"instances": [], "distinct": 0, "generated": 0, "scripts": []}
+    def cfg(defects, export, props=True, maxreq=4, maxatt=3):
+        lines = ["SPECIFICATION Spec", "CONSTANTS", "  Defects = {%s}" % ", ".join('"%s"' % d for d in defects), "  MaxRequests = %d" % maxreq, "  MaxAttempts = %d" % maxatt,
+                 "  ExportOn = %s" % ("TRUE" if export else "FALSE"), "  ExportEvery = %d" % (97 if tier == "quick" else 11)]
+        if export: lines += ["VIEW View", "INVARIANT Export"]
+        lines += ["INVARIANT EventStreamWellFormed", "INVARIANT LoopNeverDies"]
+        if props and not export: lines += ["PROPERTY StopStops", "PROPERTY StartStarts", "PROPERTY CloseCloses"]
+        lines.append("CHECK_DEADLOCK FALSE")
+        return "\n".join(lines) + "\n"
+    big = tier == "thorough"
+    main = run_tlc(os.path.join(workdir, "lc-main"), SPEC, "ClientLifecycle", cfg([], False, True, 5 if big else 4, 3), workers=8, timeout=2400)
+    if not main["ok"]:
+        sys.stdout.write(main["text"][-3000:])
+        raise ToolError("ClientLifecycle.tla (repaired behaviour) violates a C12 property: the specification and the code must be re-examined")
+    out["instances"].append({"name": "repaired behaviour, safety + liveness", "distinct": main.get("distinct", 0), "generated": main.get("generated", 0), "wall_s": main["wall_s"], "ok": True})
+    out["distinct"] += main.get("distinct", 0); out["generated"] += main.get("generated", 0)
+    for defect, expect in (("close-fails-with-queued-disconnect", "LoopNeverDies"), ("stop-waits-for-refused-disconnect", "StopStops"), ("close-waits-for-discarded-disconnect", "CloseCloses")):
+        r = run_tlc(os.path.join(workdir, "lc-" + defect[:12]), SPEC, "ClientLifecycle", cfg([defect], False, True, 4, 3), workers=8, timeout=1200)
+        found = (not r["ok"]) and (expect in r["text"])
+        out["instances"].append({"name": "defect switched on: " + defect, "expected_violation": expect, "found": found, "distinct": r.get("distinct", 0), "wall_s": r["wall_s"]})
+        if not found:
+            raise ToolError("ClientLifecycle.tla no longer exposes the recorded defect '%s' (expected a violation of %s)" % (defect, expect))
+    exp = run_tlc(os.path.join(workdir, "lc-export"), SPEC, "ClientLifecycle", cfg([], True, False, 4, 3), workers=8, timeout=1200)
+    if not exp["ok"]:
+        sys.stdout.write(exp["text"][-3000:])
+        raise ToolError("ClientLifecycle.tla export instance failed")
+    for _, h in tla_json_lines(exp["text"], "SCRIPT"):
+        out["scripts"].append(lifecycle_hist_to_script(h, "S1:lifecycle:%d" % len(out["scripts"])))
+    out["instances"].append({"name": "script export (safety, view without history)", "distinct": exp.get("distinct", 0), "generated": exp.get("generated", 0), "wall_s": exp["wall_s"], "ok": True})
+    return out
+
+
+def client_run(scripts, workdir, name):
+    os.makedirs(workdir, exist_ok=True)
+    sp = os.path.join(workdir, name + ".scripts")
+    with open(sp, "w") as f:
+        for sc in scripts:
+            f.write(json.dumps(sc) + "\n")
+    trace = os.path.join(workdir, name + ".ndjson")
+    rc, out, dt = sh([os.path.join(BIN, "client_run"), "--scripts-in", sp, "--out", trace], cwd=workdir, timeout=3000)
+    if rc != 0:
+        sys.stdout.write(out[-3000:])
+        raise ToolError("client_run failed")
+    stats = json.loads(out.strip().splitlines()[-1])
+    stats["wall_s"] = round(dt, 1)
+    return trace, sp, stats
+
+
+def check_lifecycle(pid, tier, seed):
+    t0 = time.time()
+    log = {}
+    workdir = os.path.join(WORK, pid)
+    os.makedirs(workdir, exist_ok=True)
+    build_harness(log)
+    known = load_known()
+    mc = run_lifecycle_mc(workdir, tier)
+    s1 = sample_evenly(mc["scripts"], 400 if tier == "quick" else 4000)
+    scripts = LIFECYCLE_REGRESSIONS + s1
+    trace, sp, stats = client_run(scripts, workdir, "tokio")
+    verdict, tlc = trace_check(trace, [pid], os.path.join(workdir, "tc"))
+    breaches = list(verdict["errs"][pid])
+    violations, seen = report(pid, breaches, trace, sp, known, workdir)
+    samples = [{"src": sc["cfg"]["src"], "steps": sc["steps"][:16]} for sc in (scripts[1], scripts[len(scripts) // 2], scripts[-1])]
+    coverage = {"states": max(1, mc["distinct"]), "transitions": max(1, mc["generated"]), "traces_validated_against_impl": stats["runs"], "samples": samples,
+                "exhaustive": True, "model_checking": {"instances": mc["instances"], "scripts_exported": len(mc["scripts"]), "scripts_replayed": len(s1)},
+                "events_validated": verdict["events"], "panics_observed": stats["panics"], "breaches": len(breaches), "known_findings_seen": sorted(set(seen)),
+                "explanation": ("TLC checked ClientLifecycle.tla (client state machine + event loop + transport; safety and liveness under fairness; %d distinct states) "
+                                "and rediscovered each of the three repaired defects when it is switched back on; %d executions of the real tokio client over a scripted transport "
+                                "(regression scripts and %d schedules exported by TLC) were judged by the same monitor MonC12") % (mc["distinct"], stats["runs"], len(s1))}
+    write_evidence(pid, tier, seed, coverage,
+                   ["the tokio client on a current-thread runtime with a paused clock: 'bounded time' is virtual time after the scripted transport has reacted",
+                    "the threaded client shares MqttClientImpl and the loop structure; it is exercised by the C13 check",
+                    "TLC as the judge of MonC12 and ClientLifecycle.tla"], time.time() - t0, violations, {"log": log})
+    return 1 if violations else 0
+
 # ------------------------------------------------------------------------------------------------
 # engine properties
 
 def engine_volume(tier):
     if tier == "thorough":
-        return dict(scripted=3000, adversarial=3000, faithful=3000, length=80)
-    return dict(scripted=250, adversarial=250, faithful=250, length=50)
+        return dict(scripted=2000, adversarial=2000, faithful=2000, cycles=3000, length=80, s1=6000)
+    return dict(scripted=150, adversarial=150, faithful=150, cycles=300, length=50, s1=600)
+
+
+def sample_evenly(items, n):
+    if len(items) <= n:
+        return items
+    step = len(items) / float(n)
+    return [items[int(i * step)] for i in range(n)]
+
+
+def judge_trace(pid, trace, scripts, workdir, known, log, tag):
+    """Monitors + conformance + state invariants over one recorded trace.  Returns (violations, known seen, details)."""
+    verdict, tlc = trace_check(trace, [pid], os.path.join(workdir, tag))
+    breaches = list(verdict["errs"][pid])
+    conf, et = engine_trace(trace, os.path.join(workdir, tag))
+    for b in conf["inv"]:
+        for name in b["broken"]:
+            if INV_PROPERTY.get(name) == pid:
+                breaches.append({"run": b["run"], "seq": b["seq"], "rule": "state-invariant:" + name})
+    violations, seen = report(pid, breaches, trace, scripts, known, workdir)
+    for d in conf["drift"][:5]:
+        print("DRIFT property=%s the code no longer behaves as Engine.tla: run %d event %d: %s %s" % (pid, d["run"], d["seq"], d["what"], d["detail"][:160]))
+    details = {"events": verdict["events"], "monitor_states": tlc.get("distinct", 0), "breaches": len(breaches),
+               "conformance": {"calls_replayed": conf["calls"], "states_compared": conf["states"], "runs": conf["runs"], "drift": len(conf["drift"]),
+                               "first_drift": conf["drift"][:3], "invariant_breaches": len(conf["inv"]),
+                               "situations_visited": sorted(" / ".join(str(x) for x in w) for w in conf["wit"])},
+               "conformance_states": et.get("distinct", 0)}
+    return violations, seen, details, conf
 
 
 def check_engine_property(pid, tier, seed):
     t0 = time.time()
     log = {}
     workdir = os.path.join(WORK, pid)
+    os.makedirs(workdir, exist_ok=True)
     build_harness(log)
     vol = engine_volume(tier)
-    args = ["--regress", "--scripted", str(vol["scripted"]), "--adversarial", str(vol["adversarial"]), "--faithful", str(vol["faithful"]),
-            "--len", str(vol["length"]), "--seed", str(seed)]
+    known = load_known()
+
+    # 1. spec: the bounded instance of Engine.tla with this property's monitor composed
+    depth = mcconf.EXPORT_DEPTH.get(pid, {}).get(tier, 0)
+    mc = run_mc(pid, tier, workdir, export_depth=depth)
+    s1 = sample_evenly(mc["scripts"], vol["s1"])
+    cex = [c["script"] for c in mc["cex"][:20]]
+    s1_path = os.path.join(workdir, "s1.scripts")
+    with open(s1_path, "w") as f:
+        for sc in cex + s1:
+            f.write(json.dumps(sc) + "\n")
+
+    # 2. code: execute the scenarios on the real engine (S1 from TLC, S2 random, S3 regression)
+    args = ["--state", "--scripts-in", s1_path, "--regress", "--scripted", str(vol["scripted"]), "--adversarial", str(vol["adversarial"]),
+            "--faithful", str(vol["faithful"]), "--cycles", str(vol["cycles"]), "--len", str(vol["length"]), "--seed", str(seed)]
     if tier == "thorough" and pid in ("C06", "C01"):
         args += ["--wrap", "1"]
-    trace, scripts, stats = engine_run(args, workdir, "s23")
-    verdict, tlc = trace_check(trace, [pid], workdir)
-    breaches = verdict["errs"][pid]
-    known = load_known()
-    violations, seen = report(pid, breaches, trace, scripts, known, workdir)
+    trace, scripts, stats = engine_run(args, workdir, "runs")
+
+    # 3. judge: property monitor, conformance with Engine.tla, state invariants on every observed state
+    violations, seen, details, conf = judge_trace(pid, trace, scripts, workdir, known, log, "main")
+
+    # a counterexample of the model that the code does not reproduce is a defect of the model, not of the code
+    mc_note = ""
+    if mc["cex"]:
+        if violations == 0:
+            print("MODEL-COUNTEREXAMPLE property=%s invariant %s fails on Engine.tla but its replay on the real engine is accepted" % (pid, mc["cex"][0]["invariant"]))
+            mc_note = "model counterexample not reproduced on the code"
+    # drift escalates: look ten times harder around it before concluding
+    if conf["drift"] and violations == 0:
+        args2 = ["--state", "--scripted", str(vol["scripted"] * 5), "--adversarial", str(vol["adversarial"] * 5), "--faithful", str(vol["faithful"] * 5),
+                 "--cycles", str(vol["cycles"] * 5), "--len", str(vol["length"]), "--seed", str(seed + 7919)]
+        trace2, scripts2, stats2 = engine_run(args2, workdir, "escalated")
+        v2, seen2, details2, _ = judge_trace(pid, trace2, scripts2, workdir, known, log, "esc")
+        violations += v2
+        seen += seen2
+        details["escalation"] = {"runs": stats2["runs"], "events": details2["events"], "breaches": details2["breaches"]}
+        stats["runs"] += stats2["runs"]
+
     samples = []
     with open(scripts) as f:
-        for i, line in enumerate(f):
-            if i in (0, 20, 400):
-                s = json.loads(line)
-                samples.append({"src": s["cfg"]["src"], "steps": s["steps"][:12]})
+        lines = f.readlines()
+    for i in (0, len(lines) // 3, len(lines) - 1):
+        if 0 <= i < len(lines):
+            sc = json.loads(lines[i])
+            samples.append({"src": sc["cfg"]["src"], "steps": sc["steps"][:14]})
     coverage = {
-        "states": tlc.get("distinct", 0), "transitions": tlc.get("generated", 0),
+        "states": max(1, mc["distinct"]), "transitions": max(1, mc["generated"]),
         "traces_validated_against_impl": stats["runs"], "samples": samples,
-        "events_validated": verdict["events"], "scenario_sources": {"S3_regression": True, "S2_scripted": vol["scripted"], "S2_adversarial": vol["adversarial"], "S2_faithful": vol["faithful"]},
+        "exhaustive": bool(mc["instances"]) and all(i["ok"] for i in mc["instances"]),
+        "model_checking": {"instances": mc["instances"], "witnesses": mc["witnesses"], "counterexamples": len(mc["cex"]), "note": mc_note,
+                           "scripts_exported": len(mc["scripts"]), "scripts_replayed": len(s1) + len(cex)},
+        "events_validated": details["events"],
+        "scenario_sources": {"S1_tlc_scripts": len(s1) + len(cex), "S3_regression": True, "S2_scripted": vol["scripted"], "S2_adversarial": vol["adversarial"],
+                             "S2_faithful": vol["faithful"], "S2_cycles": vol["cycles"]},
         "panics_observed": stats["panics"], "inapplicable_decisions": stats["inapplicable"],
-        "breaches": len(breaches), "known_findings_seen": sorted(set(seen)), "exhaustive": False,
-        "explanation": "TLC folded monitor Mon%s over %d recorded events of %d executions of the real engine" % (pid, verdict["events"], stats["runs"]),
+        "breaches": details["breaches"], "known_findings_seen": sorted(set(seen)),
+        "conformance": details["conformance"],
+        "explanation": ("TLC explored the bounded EngineMC instance of Engine.tla with monitor Mon%s composed (%d distinct states, all invariants hold: %s); "
+                        "%d recorded executions of the real engine (%d events) were judged by the same monitor, replayed against Engine.tla "
+                        "(%d calls, %d states compared, %d drifting) and checked against its state invariants")
+                       % (pid, mc["distinct"], "yes" if not mc["cex"] else "NO", stats["runs"], details["events"],
+                          details["conformance"]["calls_replayed"], details["conformance"]["states_compared"], details["conformance"]["drift"]),
     }
     write_evidence(pid, tier, seed, coverage,
                    ["the reference codec and reference broker of the harness (qualified against Codec.tla by the C02/C03 checks)",
-                    "TLC and the TLA+ monitor MonBase/Mon%s as the judge" % pid,
+                    "TLC as the judge of MonBase/Mon%s, Engine.tla and EngineTrace.tla" % pid,
+                    "bounds of the EngineMC instance as listed under model_checking.instances; beyond them only the recorded executions speak",
                     "virtual clock: durations in ms; writes complete as scripted"],
                    time.time() - t0, violations, {"log": log})
     return 1 if violations else 0
@@ -266,6 +541,8 @@ def main(argv):
             return replay(pid, argv[argv.index("--replay") + 1])
         if pid in ENGINE_PROPS:
             return check_engine_property(pid, tier, seed)
+        if pid == "C12":
+            return check_lifecycle(pid, tier, seed)
         print("no check registered for", pid)
         return 2
     except ToolError as e:
